@@ -471,6 +471,14 @@ def c07_key(aid, events, outs):
 C07_ASSUME = ["the emitted method bodies are read back through the statement forms the emitter produces today (if (unlikely(state_ != c)), if (state_ == c), state_ = c;, "
               "...InvalidState(...), return ..., Impl calls); any other form fails the only-known-statement-forms obligation",
               "C++ semantics of the unsigned state_ member (width read from the emitted declaration) transcribed in the harness; Impl results are arbitrary booleans"]
+C07M_ASSUME = ["the emitted .m files are read through the MATLAB forms the emitter produces today (classdef < handle, properties / methods sections, function ... end, "
+               "if / elseif / else / while / arguments blocks, assignments to locals and to declared properties, method calls, throw(yardl.ProtocolError(fmt, ...)), integer / string "
+               "literals, == ~= ~ && ||); any other form fails the only-known-statement-forms obligation",
+               "MATLAB semantics transcribed in the harness: handle-class property assignment is visible to the caller, short-circuit && / ||, MException sprintf-style message; "
+               "abstract hooks (write_<s>_, read_<s>_, has_<s>_, end_stream_, close_) are recorded, has_ answers are arbitrary booleans; MATLAB / Octave are not installed: nothing is executed",
+               "rule taken from docs/matlab/language.md (Protocols): streams are ended explicitly by end_<step>() (writer) / observed by has_<step>() answering false (reader); close() "
+               "does not end an open stream; close() calls close_ before checking (as the Python backend does), so only 'no step hook' is required of a refused close; "
+               "skip_completed_check=true (reader constructor option, default false) is an explicit opt-out of the close check"]
 PYG = "py_generated"
 
 C04_EMBED_PART = (G, "gosym_part", dict(name="c04_embed", entry="internal/zzverif.C04Embed",
@@ -719,6 +727,34 @@ C08_CHILD_REFS = (G, "gosym_part", dict(name="c08_child_references", entry="inte
                                desc="the real Namespace.GetAllChildReferences on every reference DAG over n namespaces (every list order, one optional repeated reference): each transitively "
                                     "referenced namespace exactly once, nothing else, every namespace after the namespaces it references (the order the generators emit per-namespace code in)"))
 
+
+def c08_init_key(aid, events, outs):
+    o = {x.get("key"): x.get("val", "") for x in (outs or []) if isinstance(x, dict)}
+    if aid == "init-accepts=>scaffold-loads-and-validates":
+        e = o.get("validate-error", "")
+        cls = ("empty-name" if o.get("name", None) == "" else "namespace-reads-back-as-null" if "field is missing" in e else
+               "namespace-not-pascal-cased" if "must be PascalCased" in e else "manifest-not-readable")
+        return "c08:init-scaffold-rejected-by-validate:" + cls
+    if aid == "init-rejects=>nothing-written":
+        return "c08:init-leaves-partial-scaffold"
+    return "c08_init_scaffold:" + aid
+
+
+C08_INIT_PART = (G, "gosym_part", dict(name="c08_init_scaffold", entry="internal/cmd.VerifC08InitScaffold", args_quick=(1,), args_thorough=(1,), key_fn=c08_init_key, oracle=True,
+                               required_sites=("init-accepts=>scaffold-loads-and-validates", "init-rejects=>nothing-written", "existing-files-are-never-overwritten",
+                                               "existing-package-is-refused", "namespace-is-the-documented-derivation", "scaffold-model-is-the-shipped-example",
+                                               "scaffold-enables-the-documented-targets", "ordinary-name-is-accepted"),
+                               assumptions=["the package name is a symbolic string over a 29-word vocabulary (plain / Pascal / separators - _ space / digits first and inside / . : # {} quotes / null Null NULL ~ "
+                                            "true yes on nan / reserved words class int namespace import end / non-ASCII / empty / 70 characters); 7 states of the current directory (fresh, empty model "
+                                            "directory, manifest exists, model.yml exists, both exist, `model` is a regular file, another model file exists)",
+                                            "text/template runs natively inside the engine on the concrete template text; os.OpenFile / Write / Remove / MkdirAll on the virtual file system; the YAML TEXT init "
+                                            "wrote is parsed by the real yaml.v3 parser in the native oracle (kind yaml.Documents) and decoded by the engine's decode model into yardl's own UnmarshalYAML methods; "
+                                            "updatePackageInfoFromArgs (koanf) is the only seam; natively everything is real",
+                                            "the scaffold is validated (validateImpl = LoadPackage + validatePackage), the C++ / Python / MATLAB generators are not run on it here"],
+                               desc="the REAL initImpl (`yardl init <name>`) for a symbolic name in every state of the current directory, followed by the real validateImpl on what it wrote: init accepts => the "
+                                    "scaffold loads and validates, its namespace is the Pascal-cased name, model.yml is the shipped example, cpp / python / matlab are enabled as documented; init rejects => the "
+                                    "files on disk are exactly what they were (no partial scaffold); existing files are never overwritten and an existing package is refused; ordinary names are accepted"))
+
 C12_WRITE_IF_NEEDED = (G, "gosym_part", dict(name="c12_write_if_needed", entry="internal/zzverif.C12WriteIfNeeded",
                                required_sites=("untouched-iff-identical", "created-when-missing", "final-content"),
                                desc="iocommon.WriteFileIfNeeded on symbolic old/new contents (SMT strings): a write happens iff contents differ or the file is missing",
@@ -868,6 +904,7 @@ PARTS = {
                                     "namespace identifier a module uses is imported there (directly or via a star-imported sibling); in every types.py the dtype registrations are "
                                     "dependencies-first (an eagerly evaluated registration only mentions keys registered by earlier statements)")),
         C08_CHILD_REFS,
+        C08_INIT_PART,   # the scaffold `yardl init <name>` writes for any name it accepts is a package yardl accepts; a refused init leaves nothing behind
     ],
     "C07": [
         (PYG, "c07_py_protocols", dict()),
@@ -886,6 +923,30 @@ PARTS = {
         (G, "gosym_part", dict(name="c07_cpp_reader_long", entry="internal/zzverif.C07CppReader", args_quick=(128, 1), args_thorough=(129, 1), key_fn=c07_key, tiers=("thorough",),
                                required_sites=("raises-iff-out-of-order",), assumptions=C07_ASSUME,
                                desc="reader of a 128-step all-stream protocol, last steps and Close")),
+        # MATLAB backend (helper): the emitted <P>WriterBase.m / <P>ReaderBase.m read back as classes and interpreted (zz_c07_matlab.go)
+        (G, "gosym_part", dict(name="c07_matlab_writer", entry="internal/zzverif.C07MatlabWriter", args_quick=(3, 0), args_thorough=(5, 0),
+                               required_sites=("raises-iff-out-of-order", "accepted-call-calls-exactly-its-hooks", "post-state-is-the-successor", "refused-call-calls-no-hook",
+                                               "refused-call-leaves-state-unchanged", "close-raises-iff-a-step-is-incomplete", "error-names-the-expected-step",
+                                               "distinct-states-have-distinct-exact-numbers", "declaration-order-run-is-accepted", "only-known-statement-forms"), assumptions=C07M_ASSUME,
+                               desc="real matlab/protocols.WriteProtocols on every stream/non-stream pattern of 1..n steps; the emitted writer class interpreted; one-step simulation "
+                                    "from a symbolic state_ (one of the state numbers read from the text) for an arbitrary public method (write_<s>, end_<s>, close) against the "
+                                    "declaration-order automaton: accepted iff in order, exactly the hooks due, successor state; refused: raises naming the expected step, no hook, state unchanged")),
+        (G, "gosym_part", dict(name="c07_matlab_reader", entry="internal/zzverif.C07MatlabReader", args_quick=(3, 0, 1), args_thorough=(5, 0, 2),
+                               required_sites=("raises-iff-out-of-order", "accepted-call-calls-exactly-its-hooks", "post-state-is-the-successor", "stream-continues", "stream-end-observed",
+                                               "has-returns-what-the-stream-answered", "read-returns-the-value-read", "refused-call-calls-no-hook", "refused-call-leaves-state-unchanged",
+                                               "close-raises-iff-a-step-is-incomplete", "error-names-the-expected-step", "copy-to-reads-and-writes-every-step-in-declaration-order",
+                                               "copy-to-leaves-both-in-their-final-state", "copy-to-of-a-used-reader-raises-before-any-hook", "only-known-statement-forms"), assumptions=C07M_ASSUME,
+                               desc="same for the emitted reader class (read_<s>, has_<s>, close, copy_to; has_ answers are symbolic); copy_to runs against the emitted writer class "
+                                    "(streams of up to 1 (2) items)")),
+        (G, "gosym_part", dict(name="c07_matlab_writer_long", entry="internal/zzverif.C07MatlabWriter", args_quick=(300, 3), args_thorough=(1000, 3),
+                               extra_quick=("-max-steps", "100000000"), extra_thorough=("-max-steps", "400000000"),
+                               required_sites=("raises-iff-out-of-order", "distinct-states-have-distinct-exact-numbers", "declaration-order-run-is-accepted"), assumptions=C07M_ASSUME,
+                               desc="writer of a 300-step protocol (every third step a stream): all 301 state numbers distinct and exact in a double, the declaration-order run accepted, "
+                                    "one-step simulation at both ends of the numbering")),
+        (G, "gosym_part", dict(name="c07_matlab_reader_long", entry="internal/zzverif.C07MatlabReader", args_quick=(300, 3, 1), args_thorough=(300, 3, 1), tiers=("thorough",),
+                               extra_quick=("-max-steps", "100000000"), extra_thorough=("-max-steps", "100000000"),
+                               required_sites=("raises-iff-out-of-order", "distinct-states-have-distinct-exact-numbers", "declaration-order-run-is-accepted"), assumptions=C07M_ASSUME,
+                               desc="reader of a 300-step protocol, same")),
     ],
     "C05": [
         C05_CPP_CTORS_PART,   # every generated constructor pairs version_ with that version's own header schema
